@@ -23,36 +23,59 @@ TRUSTED = [
     "correspondence evaluation (per-sample list, bulk list, shape, recorded draws)",
     "harness/c16.py: spy generators (module-level `np` / `torch` names of the wrapper modules are replaced by recording "
     "proxies for the duration of a case), case rendering, exact float->rational conversion",
-    "float decisions are shipped as outcomes computed by the harness in double precision (row argmax, row top-k order, "
-    "softmax(row).max() > threshold with a 1e-3 safety margin, rng.random() < p, k = int(n * semi_percent)); torch's "
-    "argmax / topk / softmax themselves are not modelled",
+    "float decisions are shipped as outcomes (rng.random() < p, k = int(n * semi_percent) in double precision; row argmax and "
+    "row top-k indices by the harness's own torch.argmax / torch.topk call on the float32 row, the Python oracle accepts any "
+    "index of a maximal / top-k VALUE); torch's argmax / topk / softmax themselves are not modelled",
+    "thresholded pseudo labels: the decision `softmax(row).max() > threshold` is shipped three times -- the rule evaluated by "
+    "the harness (float32 softmax of the single row, torch's tensor-vs-Python-float comparison; cross-checked in double "
+    "precision whenever the confidence is >= 1e-3 away from the threshold), the outcome on the real per-sample path and the "
+    "outcome on the real bulk path (each read off that path's answer: -1 iff the comparison was false); Check.decisions_code "
+    "tests the premise of the coherence theorem (equal decisions) on them",
     "draw contracts: integers(lo,hi) in [lo,hi), permutation(n) / randperm(n) a permutation, permuted(x) a rearrangement "
     "of x, multinomial(1,w) one-hot of length len(w) — each is evaluated on the recorded draws in Coq (Check.draws_okb)",
     "einops.rearrange '(s w) -> (w s)' is out[w*S+s] = in[s*W+w]; np.argsort of a permutation is its inverse; "
     "iteration order of the python set SemiWrapper.semi_idxs is irrelevant (all writes store -1)",
-    "'wrapped data other than the label is untouched' and 'the wrapped dataset's own labels are unchanged after every "
-    "accessor call' are checked on the real objects (getitem_x / getall_x pass-through, labels re-read after the "
-    "constructor and each accessor) by the Python oracle and Check.check (code 5); there is no Coq theorem for them "
-    "(the model is pure)",
+    "'wrapped data other than the label is untouched': Model.wrap states it at model level (a wrapper replaces the class "
+    "accessors of a dataset and nothing else; theorem other_items_untouched is then immediate) -- that the real wrapper "
+    "classes have this shape is a translator-free STRUCTURAL check of the harness on every case: the class dicts between the "
+    "wrapper's type and KDWrapper define no accessor that shadows one of the wrapped dataset and none of __len__ / "
+    "__getitem__ / __getattr__ / getshape / getdim (c16.shadowed_accessors), plus the observed pass-through of getitem_x / "
+    "getall_x; 'the wrapped dataset's own labels are unchanged after every accessor call' is checked on the real objects "
+    "(labels re-read after the constructor and each accessor) by the Python oracle and Check.check (code 5)",
+    "'a function of the constructor arguments and seed': every case is built twice under different states of the "
+    "process-wide generators (numpy legacy, torch default, python random); a seeded wrapper must give the same labels and "
+    "leave all three generators untouched (fingerprint before / after); seeds 0 and 1 are over-represented",
     "label smoothing / one-hot theorems are over Q; the float32 results are compared with the rational model within 1e-6",
 ]
 ASSUMPTIONS = [
     "class-group wrapper: group size divides the class count (otherwise only coherence is checked)",
     "all-gather wrapper and the gatherbug mode: 1 <= world_size <= dataset size",
-    "class groups / superclass / one-hot: wrapped labels in [0,C) (no -1); others: wrapped labels in [0,C) or -1",
+    "wrapped labels in [0,C) or -1 for every wrapper (class groups / superclass index their tables with -1 from the end "
+    "and so give an unlabeled sample a real class of the last group: in the announced range, not -1; smoothing and one-hot "
+    "keep an unlabeled sample marked with a vector of -1)",
     "overwrite classes / hard pseudo labels: the user-provided labels are themselves in [0,C) or -1",
     "pseudo labels with seed=None (dynamic) are resampled on every access by design: only range is claimed there",
     "re-encoding wrappers (smoothing, one-hot): the bulk accessor intentionally stays the integer label; the claim is "
     "argmax(getitem_class(i)) == getall_class()[i] (DESIGN.md reading decision)",
-    "binary convention (getshape_class == (1,) with labels 0/1) is only exercised for label smoothing",
+    "binary convention (getshape_class == (1,) with labels 0/1/-1): exercised for label smoothing (which implements it) and for "
+    "the wrappers that do not use the class count as a table size (swap, overwrite, all-gather, hard pseudo labels, random "
+    "class, semi): coherence, untouched data, reproducibility and labels in {0,1,-1} are claimed, the 'announced range' clause "
+    "is not (label 1 is outside [0, shape) by the convention itself) and these cases are judged by the Python oracle only "
+    "(the Coq contract speaks about [0, C)); class groups / superclass / one-hot read the shape as "
+    "the number of classes and raise on label 1 -- not generated",
 ]
 RULE = ("one wrapper kind per case (12 kinds incl. 4 pseudo-label table kinds), n in 1..24 (thorough ..60), C in 1..10 "
         "(..20), label layouts uniform/sorted/single-class/skewed with -1 entries where the wrapper allows them, "
-        "optionally wrapped around a KDRandomClassWrapper; group sizes (mostly divisors of C), splits 1..3, swap p in "
+        "optionally wrapped around a KDRandomClassWrapper and (25%) stacked on 1-3 further label wrappers (swap, all-gather, "
+        "semi, overwrite, pseudo label hard/soft/thresholded, random class, class groups, class-permuting superclass); group sizes (mostly divisors of C), splits 1..3, swap p in "
         "{0,1,grid}, world sizes 1..n, semi percent grid, smoothing a/b; non-trivial = at least one sample's label differs "
         "from the wrapped label or an encoding vector is produced; distinct by (kind, params, n, C, labels hash)")
 
+# wrappers that may SHOW the -1 marker (pass it through or create it)
 UNLABELED_OK = {"swap", "overwrite", "allgather", "pseudo", "semi", "smoothing"}
+# wrappers that accept -1 among the wrapped labels: all of the above, and class groups / superclass / random class, which
+# turn it into a real class (numpy negative indexing / labels ignored) -- in range, so fine by the property text
+UNLABELED_IN = UNLABELED_OK | {"class_groups", "superclass", "random_class", "onehot"}
 KINDS = ["class_groups", "superclass", "swap", "overwrite", "allgather", "pseudo", "random_class", "semi",
          "smoothing", "onehot"]
 
@@ -89,33 +112,167 @@ def gen_table(rng, n, C, probs):
     return rows
 
 
+def gen_tie_row(rng, C, probs):
+    """a row built to hit ties and boundaries exactly in float32: saturated two-way / k-way ties (confidence exactly
+    1/2, 1/k), uniform rows (exactly 1/C for C a power of two), saturated rows (exactly 1.0), rows of few repeated
+    values (ties inside and at the edge of the top-k); probability rows are dyadic, non-negative and sum to <= 1"""
+    if probs:
+        m = rng.randint(1, min(C, 8))
+        row = [0.0] * C
+        for j in rng.sample(range(C), m):
+            row[j] = 0.125
+        if m < min(C, 8) and rng.random() < 0.4:
+            row[rng.choice([j for j in range(C) if row[j] == 0.0])] = 0.0625
+        return row
+    style = rng.choice(["tie2", "tiek", "uniform", "saturated", "dup", "dup"])
+    if style == "tie2" and C >= 2:
+        row = [-50.0] * C
+        for j in rng.sample(range(C), 2):
+            row[j] = 50.0
+        return row
+    if style == "tiek" and C >= 2:
+        k = rng.choice([k for k in (2, 4, 8, 16) if k <= C])
+        row = [-60.0] * C
+        for j in rng.sample(range(C), k):
+            row[j] = 40.0
+        return row
+    if style == "uniform":
+        return [rng.choice([0.0, 1.5, -2.0, 7.0])] * C
+    if style == "saturated":
+        row = [-60.0] * C
+        row[rng.randrange(C)] = 60.0
+        return row
+    return [float(rng.choice([-1, 0, 1, 2])) for _ in range(C)]
+
+
 def softmax_max(row):
+    """confidence of a row in double precision (independent of torch)"""
     m = max(row)
     e = [math.exp(x - m) for x in row]
     return 1.0 / sum(e)
 
 
+def row32(row):
+    """the float32 numbers the wrapper sees, as exact doubles"""
+    import torch
+    return torch.tensor(row, dtype=torch.float32).tolist()
+
+
+def conf32(row):
+    """the row's confidence as the wrapper's rule defines it: max of the float32 softmax of the row (0-d tensor)"""
+    import torch
+    return torch.tensor(row, dtype=torch.float32).softmax(dim=0).max()
+
+
+def rule_above(row, threshold):
+    """`softmax(row).max() > threshold` evaluated on its own by the harness with the float32 softmax of this one row
+    and torch's comparison of a float32 tensor with a Python float"""
+    return bool(conf32(row) > threshold)
+
+
+def argmax32(row):
+    import torch
+    return int(torch.tensor(row, dtype=torch.float32).argmax())
+
+
+def topk32(row, k):
+    import torch
+    return [int(j) for j in torch.tensor(row, dtype=torch.float32).topk(k=k).indices.tolist()]
+
+
+def gen_threshold(rng, table, C):
+    """thresholds on and next to the boundaries: the classic values, 1/C, the exact float32 confidence of one of the
+    rows (as a double), its float32 neighbours, a double that rounds to it, and arbitrary ones"""
+    import numpy as np
+    c = float(conf32(rng.choice(table)))
+    return rng.choice([
+        0.5, 1.0, 1.0 / C, 0.25, 0.0, 0.99, 0.3,
+        c, c, c,
+        float(np.nextafter(np.float32(c), np.float32(2.0))), float(np.nextafter(np.float32(c), np.float32(-1.0))),
+        c + 1e-10, c - 1e-10, c - 0.01, c + 0.01, round(rng.random(), 3),
+    ])
+
+
+def gen_seed(rng):
+    """seeds incl. the falsy 0 (an `if seed:` test would fall back to the global generator) and 1"""
+    return rng.choice([0, 0, 0, 1, rng.randint(0, 9999), rng.randint(0, 9999), rng.randint(0, 9999), rng.randint(0, 9999)])
+
+
+def gen_under(rng, n, C):
+    """one more label-rewriting wrapper to put UNDER the wrapper of the case (they keep length and class count)"""
+    k = rng.choice(["swap", "allgather", "semi", "semi", "overwrite", "pseudo", "pseudo", "random_class", "class_groups",
+                    "superclass"])
+    if k == "superclass":       # one class per superclass, one split: a permutation of the classes (keeps the class count)
+        return {"w": "superclass", "cps": 1, "splits": 1, "shuffle": rng.random() < 0.7, "seed": gen_seed(rng)}
+    if k == "swap":
+        return {"w": "swap", "p": rng.choice([0.25, 0.5, 1.0]), "seed": gen_seed(rng)}
+    if k == "allgather":
+        return {"w": "allgather", "W": rng.randint(1, n)}
+    if k == "semi":
+        return {"w": "semi", "pct": rng.choice([0.3, 0.5, 0.7, 1.0]), "seed": gen_seed(rng)}
+    if k == "overwrite":
+        return {"w": "overwrite", "classes": gen_labels(rng, n, C, True), "as_tensor": rng.random() < 0.5}
+    if k == "pseudo":
+        if C == 1 or rng.random() < 0.4:
+            return {"w": "pseudo", "mode": "hard", "table": gen_labels(rng, n, C, True), "as2d": False, "seed": None}
+        table = [gen_tie_row(rng, C, False) if rng.random() < 0.3 else r for r in gen_table(rng, n, C, probs=False)]
+        if rng.random() < 0.3:
+            return {"w": "pseudo", "mode": "soft", "table": table, "tau": None, "seed": None}
+        return {"w": "pseudo", "mode": "thr", "table": table, "tau": None, "seed": None,
+                "threshold": gen_threshold(rng, table, C)}
+    if k == "random_class":
+        return {"w": "random_class", "mode": rng.choice(["random", "randperm"]), "num_classes": None, "seed": gen_seed(rng)}
+    divs = [d for d in range(1, C + 1) if C % d == 0]
+    return {"w": "class_groups", "cpg": rng.choice(divs), "shuffle": rng.random() < 0.5, "seed": gen_seed(rng)}
+
+
+BINARY_KINDS = {"swap", "overwrite", "allgather", "pseudo", "semi", "random_class"}
+
+
+def to_binary(case, rng):
+    """the same wrapper over a BINARY dataset: getshape_class() == (1,), labels 0 / 1 (/ -1).  Only the wrappers that do
+    not read the class count as a table size are defined there (class groups / superclass / one-hot index or encode with it
+    and reject label 1); label smoothing has its own binary cases"""
+    n = case["n"]
+    c = {k: v for k, v in case.items() if k not in ("under", "topk", "tau", "threshold", "table", "as2d", "ties")}
+    c.update(C=1, inner=None, binary=True, labels=[rng.choice([0, 1, 1, -1]) for _ in range(n)])
+    if c["w"] == "overwrite":
+        c["classes"] = [rng.choice([0, 1, -1]) for _ in range(n)]
+    if c["w"] == "pseudo":
+        c.update(mode="hard", table=[rng.choice([0, 1, -1]) for _ in range(n)], as2d=False, seed=None)
+    if c["w"] == "random_class":
+        c["num_classes"] = None
+    return c
+
+
 def gen_case(rng, big=False, kind=None):
+    case = _gen_case(rng, big, kind)
+    if case["w"] in BINARY_KINDS and rng.random() < 0.08:
+        return to_binary(case, rng)
+    return case
+
+
+def _gen_case(rng, big=False, kind=None):
     kind = kind or rng.choice(KINDS + ["pseudo", "semi"])
     n = rng.choice([1, 2, 3, 4, 5, 6, 7, 8, 9, 10, 12, 13, 16, 24]) if not big else rng.randint(1, 60)
     C = rng.choice([1, 2, 3, 4, 5, 6, 8, 9, 10]) if not big else rng.randint(1, 20)
     case = {"w": kind, "n": n, "C": C, "inner": None}
-    unl = kind in UNLABELED_OK
+    unl = kind in UNLABELED_IN
     if kind == "onehot":
         C = case["C"] = max(2, C)
     if kind == "class_groups":
         divs = [d for d in range(1, C + 1) if C % d == 0]
         case["cpg"] = rng.choice(divs) if rng.random() < 0.85 else rng.randint(1, C + 1)
         case["shuffle"] = rng.random() < 0.6
-        case["seed"] = rng.randint(0, 9999)
+        case["seed"] = gen_seed(rng)
     elif kind == "superclass":
         case["cps"] = rng.randint(1, C + 1)
         case["splits"] = rng.choice([1, 1, 2, 3])
         case["shuffle"] = rng.random() < 0.7
-        case["seed"] = rng.randint(0, 9999)
+        case["seed"] = gen_seed(rng)
     elif kind == "swap":
         case["p"] = rng.choice([0.0, 1.0, 0.1, 0.25, 0.5, 0.5, 0.75, 0.9])
-        case["seed"] = rng.randint(0, 9999)
+        case["seed"] = gen_seed(rng)
     elif kind == "overwrite":
         case["classes"] = gen_labels(rng, n, C, True)
         case["as_tensor"] = rng.random() < 0.5
@@ -137,30 +294,30 @@ def gen_case(rng, big=False, kind=None):
             if mode == "topk":
                 case["topk"] = rng.randint(1, C)
                 tau = rng.choice(["inf", None, 1.0, 0.5, 2.0])
-                case["seed"] = rng.choice([None, rng.randint(0, 9999), rng.randint(0, 9999), rng.randint(0, 9999)])
+                case["seed"] = rng.choice([None, 0, gen_seed(rng), rng.randint(0, 9999)])
             case["tau"] = tau
-            case["table"] = gen_table(rng, n, C, probs=(mode == "topk" and tau is None))
+            probs = mode == "topk" and tau is None
+            case["table"] = gen_table(rng, n, C, probs=probs)
+            if rng.random() < 0.5:
+                # rows that hit ties / boundaries exactly (row argmax ties, top-k edge ties, confidence == threshold)
+                q = rng.choice([0.3, 0.6, 1.0])
+                case["table"] = [gen_tie_row(rng, C, probs) if rng.random() < q else r for r in case["table"]]
+                case["ties"] = True
+                if mode == "topk" and rng.random() < 0.5:
+                    case["topk"] = rng.choice([1, C, case["topk"]])
             if mode == "thr":
-                pm = [softmax_max(r) for r in case["table"]]
-                for _ in range(50):
-                    thr = rng.choice([rng.choice(pm) - 0.01, rng.choice(pm) + 0.01, 0.5, 0.3, 0.0, 0.99,
-                                      round(rng.random(), 3)])
-                    if all(abs(p - thr) >= 1e-3 for p in pm):
-                        break
-                else:
-                    thr = 2.0
-                case["threshold"] = thr
+                case["threshold"] = gen_threshold(rng, case["table"], C)
             if mode != "topk" and rng.random() < 0.3:
-                case["seed"] = rng.randint(0, 99)          # seed without sampling: must change nothing
+                case["seed"] = rng.choice([0, rng.randint(0, 99)])          # seed without sampling: must change nothing
     elif kind == "random_class":
         case["mode"] = rng.choice(["random", "random", "randperm", "gatherbug"])
         case["num_classes"] = rng.choice([None, None, rng.randint(1, 12)])
-        case["seed"] = rng.randint(0, 9999)
+        case["seed"] = gen_seed(rng)
         if case["mode"] == "gatherbug":
             case["W"] = rng.choice([1, n, rng.randint(1, n), rng.randint(1, n)])
     elif kind == "semi":
         case["pct"] = rng.choice([0.0, 1.0, 0.1, 0.3, 0.5, 0.7, 0.29, rng.randint(0, n) / n, rng.randint(0, n) / n])
-        case["seed"] = rng.randint(0, 9999)
+        case["seed"] = gen_seed(rng)
     elif kind == "smoothing":
         b = rng.choice([1, 2, 4, 5, 10, 20])
         a = rng.choice([0, b, rng.randint(0, b), rng.randint(0, b)])
@@ -171,20 +328,63 @@ def gen_case(rng, big=False, kind=None):
         case["labels"] = gen_labels(rng, n, C, unl)
     if kind in ("class_groups", "superclass", "swap", "allgather", "semi", "smoothing", "onehot") and C > 1:
         if rng.random() < (0.5 if kind == "semi" else 0.15):
-            case["inner"] = rng.randint(0, 9999)
+            case["inner"] = gen_seed(rng)
+    if case["C"] > 1 and rng.random() < 0.25:
+        # wrappers stacked on each other (semi over pseudo label over class groups ...): the wrapper of the case sits on top
+        case["under"] = [gen_under(rng, n, case["C"]) for _ in range(rng.choice([1, 1, 2, 3]))]
     return case
+
+
+def directed_cases(rng):
+    """thresholded / soft / top-k pseudo-label tables whose rows sit exactly on a boundary: two-way saturated ties with
+    threshold 1/2, k-way ties with 1/k, uniform rows over C = 2,4,8,16 classes with threshold 1/C, saturated rows with
+    threshold 1.0, each mixed with ordinary rows and with rows on the other side of the threshold"""
+    out = []
+
+    def case(C, table, **kw):
+        n = len(table)
+        c = {"w": "pseudo", "n": n, "C": C, "inner": None, "mode": "thr", "seed": None, "tau": None, "table": table,
+             "labels": [rng.randrange(C) for _ in range(n)], "ties": True}
+        c.update(kw)
+        return c
+
+    for C in (2, 3, 4, 8, 16):
+        plain = gen_table(rng, 3, C, probs=False)
+        tie2 = [-50.0] * C
+        tie2[0] = tie2[C - 1] = 50.0
+        sat = [-60.0] * C
+        sat[C // 2] = 60.0
+        uni = [1.5] * C
+        out.append(case(C, [tie2, plain[0], sat], threshold=0.5))
+        out.append(case(C, [plain[1], tie2], threshold=0.5, seed=3))
+        out.append(case(C, [sat, plain[0], tie2, sat], threshold=1.0))
+        out.append(case(C, [sat], threshold=1.0))
+        out.append(case(C, [uni, plain[2], sat, uni], threshold=1.0 / C))
+        out.append(case(C, [uni, uni], threshold=1.0 / C))
+        for k in (2, 4, 8):
+            if k <= C:
+                row = [40.0] * k + [-60.0] * (C - k)
+                rng.shuffle(row)
+                out.append(case(C, [row, plain[0], uni, sat], threshold=1.0 / k))
+        out.append(case(C, [tie2, uni, sat, plain[1]], mode="soft"))
+        out.append(case(C, [tie2, uni, sat, plain[1]], mode="topk", topk=rng.randint(1, C), tau="inf", seed=5))
+        out.append(case(C, [tie2, uni, sat, plain[1]], mode="topk", topk=C, tau=1.0, seed=0))
+    return out
 
 
 def gen_cases(rng, tier):
     if tier == "quick":
-        out = [gen_case(rng, kind=k) for k in KINDS for _ in range(12)]
+        out = directed_cases(rng)
+        out += [gen_case(rng, kind=k) for k in KINDS for _ in range(12)]
         out += [gen_case(rng) for _ in range(900)]
     else:
-        out = [gen_case(rng) for _ in range(10000)] + [gen_case(rng, big=True) for _ in range(4000)]
+        out = directed_cases(rng) + [gen_case(rng) for _ in range(10000)] + [gen_case(rng, big=True) for _ in range(4000)]
     return out
 
 
 def search_cases(rng, tier):
+    for c in directed_cases(rng):
+        yield c
     for _ in range(30000):
         yield gen_case(rng, big=rng.random() < 0.3)
 
@@ -192,7 +392,7 @@ def search_cases(rng, tier):
 def _drop(case, i):
     """the case without sample i (None if that leaves the domain)"""
     n = case["n"]
-    if n <= 1:
+    if n <= 1 or case.get("under"):
         return None
     c = dict(case)
     c["n"] = n - 1
@@ -210,6 +410,11 @@ def _drop(case, i):
 def shrink(case):
     if case.get("inner") is not None:
         yield {**case, "inner": None}
+    if case.get("under"):
+        yield {k: v for k, v in case.items() if k != "under"}
+        for i in range(len(case["under"])):
+            if len(case["under"]) > 1:
+                yield {**case, "under": case["under"][:i] + case["under"][i + 1:]}
     n = case["n"]
     for i in (n - 1, 0, n // 2):
         c = _drop(case, i)
@@ -279,6 +484,16 @@ class _GlobalNpRandom:
     def multinomial(self, n, pvals):
         r = self._np.random.multinomial(n, pvals)
         self._t.append(["multinomial", int(n), _tolist(r)])
+        return r
+
+    def random(self, size=None):
+        r = self._np.random.random(size)
+        self._t.append(["random", _tolist(r)])
+        return r
+
+    def permutation(self, x):
+        r = self._np.random.permutation(x)
+        self._t.append(["permutation", int(x) if isinstance(x, int) or hasattr(x, "__index__") else "array", _tolist(r)])
         return r
 
     def default_rng(self, seed=None):
@@ -436,8 +651,53 @@ def make_wrapped(case):
     base = base_cls()(case["labels"], case["C"])
     if case.get("inner") is not None:
         from kappadata.wrappers.sample_wrappers.kd_random_class_wrapper import KDRandomClassWrapper
-        return KDRandomClassWrapper(base, seed=case["inner"])
+        base = KDRandomClassWrapper(base, seed=case["inner"])
+    for spec in case.get("under", []):
+        base = build(spec, base)
     return base
+
+
+LABEL_ACCESSORS = {"getitem_class", "getall_class", "getshape_class"}
+
+
+def shadowed_accessors(w, wrapped):
+    """structural reading of 'wrapped data other than the label is untouched': walk the wrapper's own classes (up to
+    KDWrapper, which forwards every unknown attribute to the wrapped dataset) and list every name they define that would
+    intercept an access to the wrapped dataset's data -- an accessor getitem_* / getall_* / getshape_* other than the
+    three label accessors that the root dataset ALSO offers (a brand-new item such as getitem_apply shadows no data)
+    and that does not return exactly what the wrapped dataset returns, a __len__ that changes the length, or one of the
+    hooks __getitem__ / __getattr__ / __getattribute__ / getshape / getdim (which cannot be checked item by item)"""
+    from kappadata.datasets.kd_wrapper import KDWrapper
+    out = []
+
+    def same(a, b):
+        a, b = _tolist(a), _tolist(b)
+        return type(a) == type(b) and a == b
+
+    for klass in type(w).__mro__:
+        if klass is KDWrapper:
+            break
+        for name in vars(klass):
+            if name in LABEL_ACCESSORS:
+                continue
+            tag = klass.__name__ + "." + name
+            if name.startswith(("getitem_", "getall_", "getshape_")) and hasattr(wrapped.root_dataset, name):
+                # the wrapper intercepts an item of the wrapped dataset: it must hand it through unchanged
+                try:
+                    if name.startswith("getitem_"):
+                        ok = all(same(getattr(w, name)(i), getattr(wrapped, name)(i)) for i in range(len(wrapped)))
+                    else:
+                        ok = same(getattr(w, name)(), getattr(wrapped, name)())
+                except Exception as e:  # noqa
+                    ok = False
+                    tag += f" ({type(e).__name__})"
+                if not ok:
+                    out.append(tag)
+            if name in ("__getitem__", "__getattr__", "__getattribute__", "getshape", "getdim"):
+                out.append(tag)
+            if name == "__len__" and len(w) != len(wrapped):
+                out.append(tag)
+    return sorted(out)
 
 
 def _plain(v):
@@ -478,6 +738,7 @@ def run_once(case):
             return obs
         obs["ctor_draws"] = list(trace)
         obs["changed_by"] = None
+        obs["shadowed"] = shadowed_accessors(w, wrapped)
 
         def guard(name):
             if obs["changed_by"] is None and _labels_of(wrapped) != before:
@@ -523,12 +784,40 @@ def run_once(case):
     return obs
 
 
-def run_impl(case):
+def _seed_globals(a):
+    import random
     import numpy as np
-    np.random.seed(case.get("seed") or 0)       # only matters for the dynamic (seed=None) pseudo labels
+    import torch
+    np.random.seed(a)
+    torch.manual_seed(a)
+    random.seed(a)
+
+
+def _globals_digest():
+    """fingerprint of the three process-wide generators (numpy legacy, torch default, python random)"""
+    import hashlib
+    import random
+    import numpy as np
+    import torch
+    st = np.random.get_state()
+    h = hashlib.sha1()
+    h.update(st[1].tobytes())
+    h.update(repr(st[2:]).encode())
+    h.update(torch.get_rng_state().numpy().tobytes())
+    h.update(repr(random.getstate()).encode())
+    return h.hexdigest()
+
+
+def run_impl(case):
+    # tripwire: a wrapper that was given a seed must neither read nor advance a process-wide generator; the two
+    # constructions run under DIFFERENT global generator states (the same state only for the by-design dynamic pseudo
+    # labels, seed=None, which draw from the global generator on every access)
+    _seed_globals(1234)
+    before = _globals_digest()
     obs = run_once(case)
+    obs["global_rng_touched"] = _globals_digest() != before
     if "ctor_error" not in obs:
-        np.random.seed(case.get("seed") or 0)
+        _seed_globals(1234 if dynamic(case) else 98765)
         again = run_once(case)
         obs["rebuild_items"] = again.get("items")
         obs["rebuild_bulk"] = again.get("bulk")
@@ -545,7 +834,7 @@ def dynamic(case):
 def in_domain(case, wrapped):
     k = case["w"]
     C = case["C"]
-    lab_ok = all(isinstance(y, int) and (0 <= y < C or (y == -1 and k in UNLABELED_OK)) for y in wrapped)
+    lab_ok = all(isinstance(y, int) and (0 <= y < C or (y == -1 and k in UNLABELED_IN)) for y in wrapped)
     if k == "class_groups":
         return lab_ok and C % case["cpg"] == 0
     if k == "smoothing" and C == 1:
@@ -579,6 +868,9 @@ def oracle(case, obs):
                 f"after {obs['after']}")
     if obs["x_ok"] is not True:
         return f"data other than the label is not passed through unchanged: {obs['x_ok']}"
+    if obs.get("shadowed"):
+        return (f"the wrapper's classes define {obs['shadowed']}: accesses to wrapped data other than the label no longer "
+                "reach the wrapped dataset unchanged")
     if not (isinstance(obs["shape"], list) and len(obs["shape"]) == 1):
         return f"getshape_class returned {obs['shape']}"
     shape = obs["shape"][0]
@@ -618,6 +910,8 @@ def oracle(case, obs):
                 return f"sample {i}: class {y} is not the strict argmax of {[float(q) for q in v]}"
         if obs["items2"] != items or obs["rebuild_items"] != items:
             return "second pass / second construction gives another encoding"
+        if obs.get("global_rng_touched"):
+            return "a re-encoding wrapper read / advanced a process-wide random generator"
         return None
 
     if any(not isinstance(y, int) for y in items):
@@ -630,12 +924,17 @@ def oracle(case, obs):
     if obs["bulk2"] != bulk:
         return f"second getall_class() call returns {obs['bulk2']}, first {bulk}"
     # (2) range
-    if in_domain(case, wrapped):
+    if in_domain(case, wrapped) and not case.get("binary"):
         unl = k in UNLABELED_OK
         bad = [y for y in items if not (0 <= y < shape or (unl and y == -1))]
         if bad:
             return f"label(s) {sorted(set(bad))} outside the announced range [0,{shape})" + (" and not -1" if unl else "")
-    # (3) reproducible
+    if case.get("binary") and any(y not in (0, 1, -1) for y in items):
+        return f"binary dataset (labels 0/1, class shape (1,)): label(s) {sorted(set(items) - {0, 1, -1})} produced"
+    # (3) reproducible: a function of the constructor arguments and the seed alone
+    if not dynamic(case) and obs.get("global_rng_touched"):
+        return ("the wrapper read / advanced a process-wide random generator (numpy / torch / random) although it was "
+                f"given seed={case.get('seed')!r}: the mapping is not a function of the constructor arguments and seed")
     if not dynamic(case):
         if obs["items2"] != items:
             return f"second pass over getitem_class differs: {obs['items2']} vs {items}"
@@ -654,7 +953,8 @@ def oracle(case, obs):
             occ.append(y)
         groups = {}
         for c, occ in seen.items():
-            groups.setdefault(occ[0] // cpg, set()).add(c)
+            if c != -1:            # unlabeled samples join the last group, they are not a class of it
+                groups.setdefault(occ[0] // cpg, set()).add(c)
         if any(len(v) > cpg for v in groups.values()):
             return f"a group received more than {cpg} classes: {groups}"
     if k == "superclass" and in_domain(case, wrapped):
@@ -668,7 +968,8 @@ def oracle(case, obs):
         for c, ys in by_cls.items():
             if len({y % og for y in ys}) != 1:
                 return f"class {c} is mapped into several superclasses: {sorted(set(ys))}"
-            sup.setdefault(ys[0] % og, set()).add(c)
+            if c != -1:
+                sup.setdefault(ys[0] % og, set()).add(c)
             cnt = [sum(1 for y in ys if y // og == sp) for sp in range(case["splits"])]
             if max(cnt) - min(cnt) > 1:
                 return f"class {c}: split sizes {cnt} are not balanced"
@@ -700,17 +1001,28 @@ def oracle(case, obs):
         return f"hard pseudo labels {case['table']} are not what the wrapper shows: {items}"
     if k == "pseudo" and case["mode"] in ("soft", "thr"):
         for i, row in enumerate(case["table"]):
-            am = max(range(len(row)), key=row.__getitem__)
-            exp = am
-            if case["mode"] == "thr" and not softmax_max(row) > case["threshold"]:
-                exp = -1
-            if items[i] != exp:
-                return f"sample {i}: pseudo label {items[i]}, expected {exp} (threshold {case.get('threshold')})"
+            r32 = row32(row)
+            above = True
+            if case["mode"] == "thr":
+                thr = case["threshold"]
+                p = softmax_max(r32)
+                # far from the threshold the decision is fixed by double-precision arithmetic alone; next to it the
+                # rule is evaluated with the float32 softmax of the single row (exact for saturated / uniform rows)
+                above = (p > thr) if abs(p - thr) >= 1e-3 else rule_above(row, thr)
+            if not above:
+                if items[i] != -1:
+                    return (f"sample {i}: confidence {float(conf32(row))!r} is not > threshold {case['threshold']!r} "
+                            f"but the label is {items[i]}, expected the -1 marker")
+            elif not (0 <= items[i] < len(row)) or r32[items[i]] != max(r32):
+                return (f"sample {i}: pseudo label {items[i]} is not an argmax of row {r32} "
+                        f"(threshold {case.get('threshold')})")
     if k == "pseudo" and case["mode"] == "topk":
         for i, row in enumerate(case["table"]):
-            top = sorted(range(len(row)), key=lambda j: -row[j])[:case["topk"]]
-            if items[i] not in top:
-                return f"sample {i}: sampled pseudo label {items[i]} is not among the top-{case['topk']} classes {top}"
+            r32 = row32(row)
+            kth = sorted(r32, reverse=True)[case["topk"] - 1]
+            if not (0 <= items[i] < len(row)) or r32[items[i]] < kth:
+                return (f"sample {i}: sampled pseudo label {items[i]} is not among the top-{case['topk']} classes of "
+                        f"row {r32}")
     return None
 
 
@@ -720,6 +1032,8 @@ def oracle(case, obs):
 def coq_applicable(case, obs):
     if "harness_exception" in obs or "ctor_error" in obs:
         return False
+    if case.get("binary"):
+        return False            # the model's contract speaks about [0, C): binary cases are judged by the Python oracle only
     if obs["wrapped"] and obs["wrapped"][0] == "INCONSISTENT":
         return False
     if isinstance(obs["items"], str) or isinstance(obs["items2"], str):
@@ -773,12 +1087,17 @@ def coq_wspec(case, obs):
         m = case["mode"]
         if m == "hard":
             return K("WPseudo", K("PLHard", list(case["table"])))
-        am = [max(range(len(r)), key=r.__getitem__) for r in case["table"]]
         if m == "soft":
-            return K("WPseudo", K("PLSoft", am))
+            return K("WPseudo", K("PLSoft", [argmax32(r) for r in case["table"]]))
         if m == "thr":
-            return K("WPseudo", K("PLThr", am, [bool(softmax_max(r) > case["threshold"]) for r in case["table"]]))
-        top = [sorted(range(len(r)), key=lambda j: -r[j])[:case["topk"]] for r in case["table"]]
+            # the threshold decision three times: the rule evaluated by the harness, and what each of the two REAL
+            # code paths decided (a thresholded label is -1 exactly when that path's comparison came out false)
+            ref = [rule_above(r, case["threshold"]) for r in case["table"]]
+            dec_item = [y != -1 for y in obs["items"]]
+            dec_bulk = [y != -1 for y in obs["bulk"]] if isinstance(obs["bulk"], list) else []
+            BL = lambda l: l if l else Raw("(@nil bool)")  # noqa: E731
+            return K("WPseudo", K("PLThr", [argmax32(r) for r in case["table"]], BL(ref), BL(dec_item), BL(dec_bulk)))
+        top = [topk32(r, case["topk"]) for r in case["table"]]
         choice = []
         for t in obs["items_draws"]:
             if t[0] == "integers":
@@ -830,13 +1149,37 @@ def features(case, obs):
     k = case["w"]
     yield "w=" + k + ("/" + case["mode"] if "mode" in case else "")
     yield "inner=%s" % (case.get("inner") is not None)
+    yield "stacked on %d other label wrappers" % len(case.get("under", []))
+    for u in case.get("under", []):
+        yield "under=" + u["w"] + ("/" + u["mode"] if "mode" in u else "")
+    if "seed" in case:
+        yield "seed=" + ("None" if case["seed"] is None else "0" if case["seed"] == 0 else "1" if case["seed"] == 1 else "other")
     yield "has-unlabeled=%s" % (-1 in (obs.get("wrapped") or []))
     yield "n=" + ("1" if case["n"] == 1 else "2-8" if case["n"] <= 8 else "9-24" if case["n"] <= 24 else "25+")
+    if case.get("binary"):
+        yield "binary dataset under " + k
     yield "C=" + ("1" if case["C"] == 1 else "2-5" if case["C"] <= 5 else "6+")
     if k == "class_groups":
         yield "cpg-divides-C=%s" % (case["C"] % case["cpg"] == 0)
     if k == "pseudo" and case["mode"] == "topk":
         yield "tau=%s seeded=%s" % (case["tau"], case["seed"] is not None)
+        yield "topk=" + ("1" if case["topk"] == 1 else "C" if case["topk"] == case["C"] else "inner")
+        r32 = [row32(r) for r in case["table"]]
+        if any(case["topk"] < len(r) and sorted(r, reverse=True)[case["topk"] - 1] == sorted(r, reverse=True)[case["topk"]]
+               for r in r32):
+            yield "topk: tie across the top-k edge"
+    if k == "pseudo" and case["mode"] in ("soft", "thr"):
+        if any(sorted(r)[-1] == sorted(r)[-2] for r in map(row32, case["table"]) if len(r) > 1):
+            yield "pseudo: argmax tie in a row"
+    if k == "pseudo" and case["mode"] == "thr":
+        thr = case["threshold"]
+        cs = [float(conf32(r)) for r in case["table"]]
+        import numpy as np
+        if any(np.float32(c) == np.float32(thr) for c in cs):
+            yield "thr: a row's float32 confidence EQUALS the threshold"
+            yield "thr: tie at threshold %s" % ("0.5" if thr == 0.5 else "1.0" if thr == 1.0 else "1/C" if thr == 1.0 / case["C"] else "other")
+        elif any(abs(c - thr) < 1e-6 for c in cs):
+            yield "thr: a row's confidence within 1e-6 of the threshold"
     if k in ("allgather",) or case.get("mode") == "gatherbug":
         yield "padding=%s" % (case["n"] % case["W"] != 0)
     if isinstance(obs.get("bulk"), str):
